@@ -102,7 +102,8 @@ def gen_skin(rng, fault=None):
     if rng.random() < 0.5:
         vw_inputs.reverse()
     nodes = [rand_affine(rng) for _ in range(rng.choice([0, 1, 1, 2, 3]))]
-    case = {'kind': 'skin', 'geoms': geoms, 'source_geom': rng.choice(geoms)['id'], 'bind_shape': bind,
+    scene = gen_scene(rng, nodes)
+    case = {'scene': scene, 'paths': scene_paths(scene), 'kind': 'skin', 'geoms': geoms, 'source_geom': rng.choice(geoms)['id'], 'bind_shape': bind,
             'sources': sources, 'joints_inputs': joints_inputs, 'vw_inputs': vw_inputs, 'vcount': vcount, 'v': v,
             'nodes': nodes, 'fault': None, 'empty_style': rng.choice(['empty', 'blank', 'selfclose']),
             'vw_order': rng.sample(range(3), 3)}
@@ -175,6 +176,33 @@ def apply_fault(rng, case, fault, nind, oj, ow, lim_j, nw):
     raise ValueError(fault)
 
 
+def gen_scene(rng, nodes):
+    """Where the <instance_controller> lives.  'direct': under the nested matrix nodes `nodes`.
+    'library': in a rig kept in <library_nodes> (its own matrix chain `rig`) that the visual scene
+    instantiates through <instance_node> several times, each under its own matrix chain (one of them
+    possibly nested inside another instantiating node), so the SAME controller node is reached
+    along several paths."""
+    if rng.random() < 0.55:
+        return {'kind': 'direct', 'nodes': nodes}
+    rig = [rand_affine(rng) for _ in range(rng.choice([0, 1, 1, 2]))]
+    uses = [[rand_affine(rng) for _ in range(rng.choice([0, 1, 1, 2]))] for _ in range(rng.choice([2, 2, 3, 4]))]
+    # a second-level use: an extra <instance_node> inside the innermost node of the first use
+    nested = rng.random() < 0.3
+    return {'kind': 'library', 'rig': rig, 'uses': uses, 'nested_extra': [rand_affine(rng)] if nested else None}
+
+
+def scene_paths(scene):
+    """matrix chains (outermost first) along which the controller instance is reached, in document order"""
+    if scene['kind'] == 'direct':
+        return [scene['nodes']]
+    out = []
+    for k, u in enumerate(scene['uses']):
+        out.append(u + scene['rig'])
+        if k == 0 and scene['nested_extra'] is not None:
+            out.append(u + scene['nested_extra'] + scene['rig'])
+    return out
+
+
 def gen_morph(rng, fault=None):
     geoms = gen_geoms(rng, rng.randint(1, 4))
     ids = [g['id'] for g in geoms]
@@ -192,6 +220,8 @@ def gen_morph(rng, fault=None):
     case = {'kind': 'morph', 'geoms': geoms, 'base': base, 'method': rng.choice([None, 'NORMALIZED', 'RELATIVE']),
             'sources': sources, 'targets_inputs': inputs, 'nodes': [rand_affine(rng) for _ in range(rng.choice([0, 1, 2]))],
             'fault': None}
+    case['scene'] = gen_scene(rng, case['nodes'])
+    case['paths'] = scene_paths(case['scene'])
     exp = {'outcome': 'ok', 'pairs': [[t, w / WDEN] for t, w in zip(targets, weights)]}
     if fault is not None:
         ts = next(s for s in sources if s['id'] == 'targets-src')
@@ -272,18 +302,39 @@ def doc_xml(rng, case):
         method = '' if case['method'] is None else ' method="%s"' % case['method']
         targets = '<targets>%s</targets>' % ''.join('<input semantic="%s" source="#%s"/>' % (s, i) for s, i in case['targets_inputs'])
         body = '<morph source="#%s"%s>%s%s</morph>' % (case['base'], method, srcs, targets)
-    inner = '<instance_controller url="#ctrl"/>'
-    for k, m in reversed(list(enumerate(case['nodes']))):
-        inner = '<node id="node%d"><matrix>%s</matrix>%s</node>' % (k, ' '.join(str(x) for x in m), inner)
-    if not case['nodes']:
-        inner = '<node id="node0">%s</node>' % inner
+    counter = [0]
+
+    def chain(mats, inner):
+        """nested <node><matrix/>...</node> around `inner` (at least one node)"""
+        for m in reversed(mats):
+            counter[0] += 1
+            inner = '<node id="node%d"><matrix>%s</matrix>%s</node>' % (counter[0], ' '.join(str(x) for x in m), inner)
+        if not mats:
+            counter[0] += 1
+            inner = '<node id="node%d">%s</node>' % (counter[0], inner)
+        return inner
+
+    scene = case.get('scene') or {'kind': 'direct', 'nodes': case['nodes']}
+    libnodes = ''
+    if scene['kind'] == 'direct':
+        inner = chain(scene['nodes'], '<instance_controller url="#ctrl"/>')
+    else:
+        rig = '<node id="rig">%s</node>' % chain(scene['rig'], '<instance_controller url="#ctrl"/>')
+        libnodes = '<library_nodes>%s</library_nodes>' % rig
+        tops = []
+        for k, u in enumerate(scene['uses']):
+            use = '<instance_node url="#rig"/>'
+            if k == 0 and scene['nested_extra'] is not None:
+                use += chain(scene['nested_extra'], '<instance_node url="#rig"/>')
+            tops.append(chain(u, use))
+        inner = ''.join(tops)
     return ('<?xml version="1.0" encoding="utf-8"?>\n<COLLADA xmlns="%s" version="1.4.1">'
             '<asset><created>2020-01-01T00:00:00Z</created><modified>2020-01-01T00:00:00Z</modified></asset>'
             '<library_geometries>%s</library_geometries>'
-            '<library_controllers><controller id="ctrl">%s</controller></library_controllers>'
+            '<library_controllers><controller id="ctrl">%s</controller></library_controllers>%s'
             '<library_visual_scenes><visual_scene id="vs">%s</visual_scene></library_visual_scenes>'
             '<scene><instance_visual_scene url="#vs"/></scene></COLLADA>'
-            % (NS, ''.join(geom_xml(g) for g in case['geoms']), body, inner))
+            % (NS, ''.join(geom_xml(g) for g in case['geoms']), body, libnodes, inner))
 
 
 # ------------------------------------------------------------------ encoding
@@ -340,7 +391,11 @@ def encode(case, obs):
             o = 'None'
         out.append('(SkinCase %s (n %d) (%s))' % (d, code, o))
         if obs.get('bound') is not None and code == 0 and view is not None and view['bind_shape'] is not None:
-            out.append('(BoundCase %s %s %s)' % (clist([zl(m) for m in case['nodes']]), zl(view['bind_shape']), zl(obs['bound'])))
+            # obs['bound'][r] = for traversal r, one bound matrix per path (paired with the paths in canonical order)
+            paths = case.get('paths') or [case['nodes']]
+            for trav in obs['bound']:
+                for path, M in zip(paths, trav):
+                    out.append('(BoundCase %s %s %s)' % (clist([zl(m) for m in path]), zl(view['bind_shape']), zl(M)))
     else:
         d = '(mk_morph_desc %s (Some (%s)) true %s %s)' % (
             c_scope(I, case), I(case['base']),
@@ -448,6 +503,7 @@ def run(ctx):
         bump(dist['kind'], c['kind'])
         bump(dist['fault'], c['fault'])
         bump(dist['nodes'], len(c['nodes']))
+        bump(dist.setdefault('paths_to_controller', {}), len(c.get('paths') or [1]))
         bump(dist['codes'], (r.get('obs') or {}).get('code'))
         if c['kind'] == 'skin':
             bump(dist['joint_array'], next(s['type'] for s in c['sources'] if s['id'] == 'joints-src'))
@@ -459,7 +515,7 @@ def run(ctx):
             nontrivial = len(c['expect'].get('pairs', [])) >= 1 or c['fault'] is not None
         if nontrivial:
             seen.add(core.canon_hash([c['kind'], c['sources'], c.get('vcount'), c.get('v'), c.get('vw_inputs'),
-                                      c.get('targets_inputs'), c.get('bind_shape'), c['nodes']]))
+                                      c.get('targets_inputs'), c.get('bind_shape'), c['nodes'], c.get('scene')]))
     corr = {
         'evaluations': len(cases),
         'distinct_nontrivial': len(seen),
@@ -468,7 +524,8 @@ def run(ctx):
                 'Name and IDREF joint arrays, optional bind shape matrix, optional separate JOINT source for the weights, '
                 'faults (index beyond its source, <v> too short, <v> too long, joint/matrix count mismatch); morphs with 0-5 '
                 'targets, both methods and none, target/weight count mismatch; instantiated under 0-3 nested integer '
-                'matrix nodes; non-trivial = skin with at least two vertices, or morph with a target or a fault',
+                'matrix nodes, or kept in a <library_nodes> rig that is instantiated 2-5 times through <instance_node> '
+                '(one use possibly nested) under different matrix chains, traversed twice; non-trivial = skin with at least two vertices, or morph with a target or a fault',
         'samples': [{'kind': c['kind'], 'fault': c['fault'], 'vcount': c.get('vcount'), 'v': c.get('v'),
                      'vw_inputs': c.get('vw_inputs'), 'observed': (r.get('obs') or {}).get('code')}
                     for c, r in list(zip(cases, results))[ncorpus:ncorpus + 3]],
